@@ -441,7 +441,7 @@ def check_formats(ctx):
     ev = ctx.evaluator()
     ff = ctx.fn(M + "format_option")
     for k, v in (("b", "bin"), ("x", "hex"), ("raw", "raw"), ("bin", "bin"), ("hex", "hex")):
-        got = rules.decided_outcome(ev.run(ff, {"o": k}))
+        got = rules.strict_outcome(ev.run(ff, {"o": k}))
         R.check("C20.6", "TABLE", ff, "format_option(%r) = %r" % (k, v), got == ("return", v), "format_option(%r) = %s" % (k, (got,)), nontrivial=False)
     fw = ctx.fn("bits.write_bytes")
     data = P("data", tm.BYTES)
@@ -471,11 +471,11 @@ def check_formats(ctx):
     R.check("C20.7", "TERM-EQ", fw, "write_bytes raw writes the bytes unchanged", bool(raw) and all(tm.veq(c[1][-1], data) for c in raw),
             "write_bytes(raw) writes %s" % [tm.show(c[1][-1])[:80] for c in raw])
     for bad in ("base64", "", "pem"):
-        got = rules.decided_outcome(ev.run(fw, {"output_format": bad}))
+        got = rules.strict_outcome(ev.run(fw, {"output_format": bad}))
         R.check("C20.6", "TABLE", fw, "write_bytes refuses format %r" % bad, got[0] == "raise", "write_bytes(%r) -> %s" % (bad, got[0]), nontrivial=False)
     fr_ = ctx.fn("bits.read_bytes")
     for bad in ("base64", ""):
-        got = rules.decided_outcome(ev.run(fr_, {"input_format": bad}))
+        got = rules.strict_outcome(ev.run(fr_, {"input_format": bad}))
         R.check("C20.6", "TABLE", fr_, "read_bytes refuses format %r" % bad, got[0] == "raise", "read_bytes(%r) -> %s" % (bad, got[0]), nontrivial=False)
     for use_file in (True, False):
         for fmt in ("hex", "bin"):
@@ -499,7 +499,7 @@ def check_formats(ctx):
                 a = dict(ev.assumptions)
                 a.update({tm.truth(txt): L > 0, tm.cmp("eq", txt, ""): L == 0, tm.cmp("ne", txt, ""): L > 0})
                 ev.assumptions = a
-                kind, val = rules.decided_outcome(ev.run(fr_, {"input_format": fmt}))
+                kind, val = rules.strict_outcome(ev.run(fr_, {"input_format": fmt}))
                 if fmt == "hex":
                     want = tm.unhex(tm.scat(["0", txt]) if L % 2 else txt)
                     alts = [want]
@@ -514,7 +514,7 @@ def check_formats(ctx):
                         example="%s text of %d characters" % (fmt, L))
     ev.bind, ev.assumptions = {}, {}
     ev.assumptions = {tm.truth(fobj): True}
-    kind, val = rules.decided_outcome(ev.run(fr_, {"input_format": "raw"}))
+    kind, val = rules.strict_outcome(ev.run(fr_, {"input_format": "raw"}))
     ok = kind == "return" and isinstance(val, T) and not any(isinstance(t, T) and t.op.startswith("m:") for t in tm.subterms(val))
     R.check("C20.7", "TERM-EQ", fr_, "read_bytes raw returns the bytes read, unprocessed", ok, "read_bytes(raw) = %s" % tm.show(val)[:120])
     ev.assumptions = {}
